@@ -3,7 +3,7 @@
    check of a hit returns the allocated tags for every key assignment;
    refinement of the reference semantics; timestamps; common tags. *)
 From Coq Require Import ZArith List Bool Arith Lia Permutation.
-From Tally Require Import Base.Obs Gen.Params Model.Varint Model.Thrift Model.Buckets Model.M3Pipe.
+From Tally Require Import Base.ObsCore Gen.Params Model.Varint Model.Thrift Model.Buckets Model.M3Pipe.
 Import ListNotations.
 Open Scope Z_scope.
 
